@@ -300,7 +300,228 @@ def gen_cases(ctx):
                       "weights": [[nm, (2.0 ** (-8 * j)).hex()] for j, nm in enumerate(ATTRS)],
                       "limit_scale": ls if isinstance(ls, int) else ls.hex(),
                       "cores": 2 if (thorough and i % 20 == 7) else 1})
+    # one object, several uses (attributes changed in between): every seed gets refinements (same d, other n),
+    # changes of d, of the limits, and returns to an earlier configuration
+    for _ in range(14 if not thorough else 60):
+        cases.append(gen_history_grid(rng))
+    for _ in range(8 if not thorough else 30):
+        cases.append(gen_history_sens(rng))
     return cases
+
+
+# ---------------------------------------------------------------------------
+# histories: ONE GridSearch / Sensitivity object used several times, public attributes changed between uses
+# ---------------------------------------------------------------------------
+HNAMES = ["alpha", "beta", "gamma", "delta", "eps"]
+
+
+def _hist_plan(rng, dmax):
+    """sequence of (n, d, relimit) -- every plan contains two uses with the SAME d and DIFFERENT n (refinement),
+    most also a change of d and a return to an earlier (n, d)"""
+    def cap(d):
+        return {1: 8, 2: 4, 3: 2}[d]
+
+    def two(d):
+        a = rng.randint(1, cap(d))
+        b = rng.choice([x for x in range(1, cap(d) + 1) if x != a] or [a + 1])
+        return a, b
+    pat = rng.choice(["refine", "alternate", "dims", "limits", "mixed", "mixed"])
+    d = rng.randint(1, min(2, dmax)) if rng.random() < 0.8 else rng.randint(1, dmax)
+    a, b = two(d)
+    if pat == "refine":
+        plan = [(a, d, False), (b, d, False), (rng.randint(1, cap(d)), d, False)]
+    elif pat == "alternate":
+        plan = [(a, d, False), (b, d, False), (a, d, False), (b, d, rng.random() < 0.3)]
+    elif pat == "dims":
+        d2 = rng.choice([x for x in range(1, dmax + 1) if x != d])
+        m = min(a, cap(d2))
+        plan = [(m, d, False), (m, d2, False), (m, d, False), (b if b != m else m + 1, d, False), (min(b, cap(d2)), d2, False)]
+    elif pat == "limits":
+        plan = [(a, d, False), (a, d, True), (b, d, True), (b, d, False)]
+    else:
+        plan = [(a, d, False)]
+        for _ in range(rng.randint(2, 5)):
+            dd = d if rng.random() < 0.6 else rng.randint(1, dmax)
+            plan.append((rng.randint(1, cap(dd)), dd, rng.random() < 0.25))
+        plan.append((b, d, False))
+    return pat, plan
+
+
+def gen_history_grid(rng):
+    names = rng.sample(HNAMES, rng.randint(2, 4))
+    lim = {nm: prior_range(rng) for nm in names}
+    extras = gen_extras(rng, names) if rng.random() < 0.4 else {}
+    pat, plan = _hist_plan(rng, min(3, len(names)))
+    grids = {}
+    steps = []
+    for j, (n, d, relimit) in enumerate(plan):
+        if d not in grids or rng.random() < 0.25:
+            grids[d] = rng.sample(names, d)
+        grid = grids[d]
+        if relimit:
+            lim[rng.choice(grid)] = prior_range(rng)
+        op = rng.choice(["lists", "cells", "mappers", "jobs", "fit", "fit"])
+        pri = [[nm, lim[nm][0].hex(), lim[nm][1].hex()] for nm in names]
+        if op == "lists":
+            st = {"kind": "lists", "n": n, "d": d, "centre": False, "via": "gridsearch"}
+        elif op == "cells":
+            st = {"kind": "cells", "n": n, "priors": [[lim[nm][0].hex(), lim[nm][1].hex()] for nm in grid]}
+        else:
+            st = {"kind": op, "n": n, "priors": pri, "grid": list(grid), "extras": extras, "reuse_model": j > 0 and rng.random() < 0.7}
+            if op == "fit":
+                order = list(range(n ** d))
+                rng.shuffle(order)
+                st.update({"order": order, "entry": "fit" if rng.random() < 0.75 else "_fit"})
+        steps.append(st)
+    return {"kind": "history", "target": "grid", "pattern": pat, "interval": rng.choice([1, 2, 100]), "steps": steps}
+
+
+def gen_history_sens(rng):
+    scales = [1, 1, 1.0, 0.5, 2, 2.0, 3, 0.25]
+    d = rng.choice([1, 1, 2, 2, 3])
+    steps = []
+    prev = None
+    for j in range(rng.randint(3, 5)):
+        r = rng.random()
+        if prev is not None and r < 0.15:
+            d = rng.choice([x for x in (1, 2, 3) if x != d])
+        op = rng.choice(["sens_lists", "sens_cells", "sens_run"])
+        cap = {1: 8, 2: 4, 3: 2}[d] if op == "sens_run" else {1: 40, 2: 8, 3: 4}[d]
+        as_tuple = rng.random() < 0.6
+        for _ in range(20):
+            ns_ = [rng.randint(1, cap) for _ in range(d)] if as_tuple else [rng.randint(1, cap)] * d
+            if ns_ != prev:
+                break
+        prev = ns_
+        ls = rng.choice(scales)
+        ls = ls if isinstance(ls, int) else ls.hex()
+        if op == "sens_lists":
+            st = {"kind": op, "ns": ns_, "as_tuple": as_tuple}
+        elif op == "sens_cells":
+            st = {"kind": op, "ns": ns_, "as_tuple": as_tuple, "limit_scale": ls}
+        else:
+            total = 1
+            for n_ in ns_:
+                total *= n_
+            order = list(range(total))
+            rng.shuffle(order)
+            pri = []
+            for nm in rng.sample(ATTRS, d):
+                lo = float(rng.randint(-4, 4))
+                pri.append([nm, lo.hex(), (lo + rng.choice([1.0, 2.0, 4.0, 8.0])).hex()])
+            st = {"kind": op, "ns": ns_, "as_tuple": as_tuple, "order": order, "priors": pri,
+                  "weights": [[nm, (2.0 ** (-8 * i)).hex()] for i, nm in enumerate(ATTRS)], "limit_scale": ls, "cores": 1}
+        steps.append(st)
+    return {"kind": "history", "target": "sens", "pattern": "sens", "steps": steps}
+
+
+def describe_use(st):
+    if "ns" in st:
+        return "%s steps=%s%s" % (st["kind"], tuple(st["ns"]) if st["as_tuple"] else st["ns"][0],
+                                  " limit_scale=%s" % st["limit_scale"] if "limit_scale" in st else "")
+    d = st["d"] if "d" in st else len(st["grid"]) if "grid" in st else len(st["priors"])
+    return "%s n=%d d=%d" % (st["kind"], st["n"], d)
+
+
+def oracle_jobs(c, r):
+    n, d = c["n"], len(c["grid"])
+    tot = n ** d
+    if len(r["job_cells"]) != tot:
+        return [("make_jobs made %d jobs, expected %d^%d" % (len(r["job_cells"]), n, d), [])]
+    if r["job_index"] != [[i, i] for i in range(tot)]:
+        return [("jobs are not numbered 0..%d in order: %s" % (tot - 1, r["job_index"]), [])]
+    dims = r["sorted_names"]
+    if sorted(dims) != sorted(c["grid"]):
+        return [("grid dimensions %s are not the grid priors %s" % (dims, sorted(c["grid"])), [])]
+    pr = {x: (unhex(a), unhex(b)) for x, a, b in c["priors"]}
+    for idx in range(tot):
+        dg = dict(zip(dims, digits_of(idx, [n] * d)))
+        for j, nm in enumerate(dims):
+            lo, hi = pr[nm]
+            w = (hi - lo) / n
+            got = (unhex(r["job_cells"][idx][nm][0]), unhex(r["job_cells"][idx][nm][1]))
+            e = (lo + dg[nm] / n * (hi - lo), lo + (dg[nm] + 1) / n * (hi - lo))
+            if not (close(got[0], e[0], w) and close(got[1], e[1], w)):
+                return [("job %d is not cell %d in row-major order (prior %s is %r, cell is %r)" % (idx, idx, nm, got, e), [])]
+            if idx < len(r["physical"]) and abs(unhex(r["physical"][idx][j]) - got[0]) > 1e-9 * w + 2e-14 + 8 * ulp(abs(got[0])):
+                return [("make_physical_lists entry %d is %r, job %d's cell starts at %r" % (idx, unhex(r["physical"][idx][j]), idx, got[0]), [])]
+    if len(r["physical"]) != tot:
+        return [("make_physical_lists has %d entries for %d jobs" % (len(r["physical"]), tot), [])]
+    return []
+
+
+def oracle_history(c, r):
+    """every use of the one object must (a) satisfy the property as stated for a single use and (b) answer what a
+    fresh object with the same attributes answers"""
+    what = "GridSearch" if c["target"] == "grid" else "Sensitivity"
+    fails = []
+    for j, (st, u, f) in enumerate(zip(c["steps"], r["steps"], r["fresh"])):
+        tag = "use %d of ONE %s object [%s]" % (j + 1, what, " -> ".join(describe_use(x) for x in c["steps"][: j + 1]))
+        if "exc" in u:
+            fails.append(("%s raised %s: %s" % (tag, u["exc"], u.get("msg")), []))
+            continue
+        for msg, classes in oracle_all(st, u["ok"]):
+            fails.append(("%s: %s" % (tag, msg), classes))
+        if "exc" in f:
+            fails.append(("%s: a fresh object raised %s: %s" % (tag, f["exc"], f.get("msg")), []))
+        else:
+            diff = sorted(k for k in u["ok"] if u["ok"][k] != f["ok"].get(k))
+            if diff:
+                fails.append(("%s: the answer differs from that of a fresh object with the same attributes in %s" % (tag, diff), []))
+    return fails
+
+
+def coq_history(c, r):
+    """the whole history as ONE term for the state machine of Machine.v, plus each use as a stateless case"""
+    out = []
+    if any("exc" in u for u in r["steps"]):
+        return out
+    ops, exp = [], []
+    for st, u in zip(c["steps"], r["steps"]):
+        u = u["ok"]
+        out += coq_cases(st, u)
+        k = st["kind"]
+        if c["target"] == "grid":
+            ops.append("OSetSteps %s" % cZ(st["n"]))
+            if k == "lists":
+                ops.append("OLists %s" % cnat(st["d"]))
+                exp.append("RLists %s" % cfl(u["lists"]))
+                continue
+            if k == "cells":
+                pri = [cpair(cfloat(unhex(a)), cfloat(unhex(b))) for a, b in st["priors"]]
+                cells = u["cells"]
+            else:
+                names = u["sorted_names"]
+                if sorted(names) != sorted(st["grid"]):
+                    return out
+                pr = {x: (a, b) for x, a, b in st["priors"]}
+                pri = [cpair(cfloat(unhex(pr[nm][0])), cfloat(unhex(pr[nm][1]))) for nm in names]
+                if k == "mappers":
+                    rows = [{nm: row[nm + ".centre"][1:3] for nm in names} for row in u["mappers"]]
+                else:
+                    rows = u["samples"] if k == "fit" else u["job_cells"]
+                cells = [[row[nm] for nm in names] for row in rows]
+            ops.append("OCells %s" % clist(pri))
+            exp.append("RCells %s" % clist([clist([cpair(cfloat(unhex(a)), cfloat(unhex(b))) for a, b in row]) for row in cells]))
+        else:
+            if k == "sens_run":
+                continue
+            ops.append("OSetSteps %s" % clist([cZ(n) for n in st["ns"]]))
+            if k == "sens_lists":
+                ops.append("OLists %s" % cnat(len(st["ns"])))
+                exp.append("RLists %s" % cfl(u["lists"]))
+            else:
+                ls = st["limit_scale"]
+                ops.append("OCells %s" % cfloat(unhex(ls) if isinstance(ls, str) else float(ls)))
+                exp.append("RCells %s" % clist([clist([cpair(cfloat(unhex(a)), cfloat(unhex(b))) for a, b in row]) for row in u["limits"]]))
+    if exp:
+        first = c["steps"][0]
+        if c["target"] == "grid":
+            out.append("CHistory %s %s %s" % (cZ(first["n"]), clist(["(%s)" % o for o in ops]), clist(["(%s)" % e for e in exp])))
+        else:
+            out.append("CSensHistory %s %s %s" % (clist([cZ(n) for n in first["ns"]]), clist(["(%s)" % o for o in ops]),
+                                                  clist(["(%s)" % e for e in exp])))
+    return out
 
 
 def ulp(x):
@@ -345,6 +566,10 @@ def oracle_all(c, r):
         return oracle_fit(c, r)
     if k == "sens_run":
         return oracle_sens_run(c, r)
+    if k == "history":
+        return oracle_history(c, r)
+    if k == "jobs":
+        return oracle_jobs(c, r)
     msg = oracle_simple(c, r)
     return [(msg, [])] if msg else []
 
@@ -766,6 +991,16 @@ def cell_number(dataset, c):
 def coq_cases(c, r):
     """Coq terms of type `case` (abstract input + what the implementation returned)."""
     k = c["kind"]
+    if k == "history":
+        return coq_history(c, r)
+    if k == "jobs":
+        names = r["sorted_names"]
+        if sorted(names) != sorted(c["grid"]):
+            return []
+        pr = {x: (a, b) for x, a, b in c["priors"]}
+        pri = clist([cpair(cfloat(unhex(pr[nm][0])), cfloat(unhex(pr[nm][1]))) for nm in names])
+        exp = clist([clist([cpair(cfloat(unhex(s_[nm][0])), cfloat(unhex(s_[nm][1]))) for nm in names]) for s_ in r["job_cells"]])
+        return ["CCells %s %s %s" % (cZ(c["n"]), pri, exp)]
     if k == "lists":
         if c.get("via") == "gridsearch":
             return ["CGridLists %s %s %s" % (cZ(c["n"]), cnat(c["d"]), cfl(r["lists"]))]
@@ -843,6 +1078,11 @@ def nontrivial(c):
         return c["order"] != sorted(c["order"]) or c.get("cores", 1) > 1
     if k == "infinite":
         return True
+    if k == "jobs":
+        return c["n"] >= 2
+    if k == "history":
+        # at least two uses whose attributes differ
+        return len({describe_use(x).split(" ", 1)[1] for x in c["steps"]}) >= 2
     return False
 
 
@@ -870,7 +1110,10 @@ def run(ctx):
                 "shared / aliased other parameters, real fits through GridSearch.fit/_fit with a permuted completion order and a "
                 "likelihood that is a function of the cell, GridSearchResult accessors, ResultBuilder arrival orders with re-delivery, "
                 "sensitivity lattices / unit cells with limit_scale / sorting / real Sensitivity.run with perturb priors created out "
-                "of path order); a case is non-trivial when n >= 2 (count: n >= 3) and, for ordered kinds, the completion order "
+                "of path order, and HISTORIES: one GridSearch / Sensitivity object used for several make_lists / make_arguments / "
+                "model_mappers / make_jobs / fit (resp. _lists / _perturb_models / run) calls with number_of_steps, the number of grid "
+                "priors, their limits, limit_scale and the model changed between uses -- every use is checked as a single use, against "
+                "a fresh object and against the state-machine model); a case is non-trivial when n >= 2 (count: n >= 3) and, for ordered kinds, the completion order "
                 "differs from job order (or is left to the real process pool); distinct = distinct abstract input")
     ctx.trusted = [
         "Coq 8.16.1 kernel incl. vm_compute; primitive floats (PrimFloat, Uint63) are kernel primitives",
@@ -922,8 +1165,8 @@ def run(ctx):
             if f.endswith(".json"):
                 corpus[len(cases)] = f[:-5]
                 cases.append(json.load(open(os.path.join(cdir, f)))["case"])
-    slow = [i for i, c in enumerate(cases) if c["kind"] in ("fit", "sens_run")]
-    fast = [i for i, c in enumerate(cases) if c["kind"] not in ("fit", "sens_run")]
+    slow = [i for i, c in enumerate(cases) if c["kind"] in ("fit", "sens_run", "history")]
+    fast = [i for i, c in enumerate(cases) if c["kind"] not in ("fit", "sens_run", "history")]
     groups = [fast] + [slow[j::6] for j in range(6)]
     groups = [g for g in groups if g]
     outs = common.run_impl_parallel("c16_impl", [{"cases": [cases[i] for i in g]} for g in groups], timeout=1500)
@@ -942,6 +1185,15 @@ def run(ctx):
             ctx.hist("sens_run.limit_scale", str(c["limit_scale"]))
         if c["kind"] == "fit":
             ctx.hist("fit.two_decimal_labels_would_collide", labels_collide(c))
+        if c["kind"] == "history":
+            ctx.hist("history.pattern", "%s:%s" % (c["target"], c.get("pattern")))
+            ctx.hist("history.uses", len(c["steps"]))
+            for st in c["steps"]:
+                ctx.hist("history.use_kind", st["kind"])
+            same_d_other_n = any(("n" in a and "n" in b and a["n"] != b["n"] and describe_use(a).split(" d=")[-1] == describe_use(b).split(" d=")[-1])
+                                 or ("ns" in a and "ns" in b and a["ns"] != b["ns"] and len(a["ns"]) == len(b["ns"]))
+                                 for ia, a in enumerate(c["steps"]) for b in c["steps"][ia + 1:])
+            ctx.hist("history.same_d_changed_steps", same_d_other_n)
         if c["kind"] in ("fit", "mappers"):
             ctx.hist("%s.extras" % c["kind"], ",".join(sorted({v.split(":")[0] for e in c["extras"].values() for v in e.values()})) or "const")
         ctx.oracle["cases"] += 1
@@ -957,6 +1209,8 @@ def run(ctx):
         if fails:
             ctx.oracle["failures"] += 1
         small = {k: v for k, v in r["ok"].items() if len(str(v)) < 1500}
+        if c["kind"] == "history":
+            small = {"steps": [u if "exc" in u else {k: v for k, v in u["ok"].items() if len(str(v)) < 600} for u in r["ok"]["steps"]]}
         for msg, classes in fails:
             ctx.failure("oracle", msg, c, classes=classes, impl=small)
         for cc in coq_cases(c, r["ok"]):
@@ -968,7 +1222,7 @@ def run(ctx):
             ctx.sample({"case": small if len(str(small)) < 400 else {"kind": c["kind"], "n": c.get("n")}}, limit=8)
     # 4. correspondence inside Coq (needs Gen.vo/Model.vo; they build even when a proof is broken)
     if os.path.exists(os.path.join(common.COQ, "C16", "Model.vo")):
-        hdr = ctx.header(["Common.PyFloat", "Common.Lists", "Gen", "Model"])
+        hdr = ctx.header(["Common.PyFloat", "Common.Lists", "Gen", "Machine", "Model"])
         bad, log = ctx.eval_cases(hdr, "case", "check_case", coq_terms, shard=60)
         if bad:
             for b in bad[:5]:
@@ -986,8 +1240,11 @@ MANIFEST = {
             "disjoint cells; reported limits/centres are those of the cell fitted; results keyed by job number for every completion "
             "order incl. re-delivery (latest wins) and paths pairing; sensitivity counts, positional sorting, unit cells for "
             "limit_scale = 1 equal to the grid-search cells and bounded for every limit_scale >= 0; shape under a 1/2-accurate root; "
-            "binary64 count on 1..131072 by a kernel-checked sweep) plus bit-exact vm_compute correspondence of the model with the "
-            "running code and a direct property oracle on every generated case, where the likelihood of every fit is a function of "
+            "binary64 count on 1..131072 by a kernel-checked sweep; the grid-search / sensitivity OBJECT as a state machine with an "
+            "explicit lattice cache: every answer of every history of uses equals a fresh object's answer for the current "
+            "(n, d, limits) for the code's policy (no cache) and for any sound cache, refuted for a cache keyed by d alone) plus bit-exact vm_compute correspondence of the model with the "
+            "running code and a direct property oracle on every generated case (single uses and histories of one reused object with attributes "
+            "changed between uses, each use also compared with a fresh object), where the likelihood of every fit is a function of "
             "its cell so that every per-cell list (samples, log_likelihoods, native, log_evidences, attribute_grid, builder results "
             "and paths, csv columns by header, sensitivity base/perturbed samples, folder labels) is tied to cell k",
     "note": "Trusted: Coq kernel + vm_compute, primitive floats, the translator pyexpr2coq.py, the correspondence harness; libm pow is an "
@@ -995,7 +1252,10 @@ MANIFEST = {
             "compared bit-for-bit by correspondence only); UniformPrior.value_for is modelled as lo+u*(hi-lo) without its 14-decimal "
             "rounding; the order of the grid dimensions is the library's sort_priors_alphabetically (taken as given); 'other parameters "
             "keep their priors' is checked by the oracle only (object identity, sharing structure), not modelled in Coq; completion orders "
-            "are steered through a permuting job runner, the real process pool runs in two thorough-tier cases only. Three genuine defects found by this check (sensitivity csv/folder labels in attribute order; grid cells narrower "
+            "are steered through a permuting job runner, the real process pool runs in two thorough-tier cases only; in histories the "
+            "output folders of earlier uses are removed between uses (resumption of finished cells is not C16's subject), limits change "
+            "by replacing prior objects (assigning to a prior's limit attributes leaves its message stale and is not generated), and "
+            "real Sensitivity.run steps enter the state-machine correspondence only through their stateless cases. Three genuine defects found by this check (sensitivity csv/folder labels in attribute order; grid cells narrower "
             "than 0.005 sharing a folder; Prior.with_limits keeping the old message) were repaired in /repo (c25e54b, cc931f4, d755794) and are "
             "pinned by corpus/C16 regression obligations; no known finding is open.",
     "technique": "machine-checked proof in Coq (translator-regenerated model) + vm_compute correspondence",
